@@ -145,6 +145,9 @@ fn scenario(n: u16, rounds: u16, reads: u16) {
         kernel::settle();
         let got = peer.take_received();
         READS.fetch_add(1, Ordering::Relaxed);
+        if got.len() == 9 && got[7] & 0x80 != 0 {
+            panic!("a read of an existing register was answered with exception {:02x?} which no handler raised", &got[7..]);
+        }
         if got.len() != 11 || got[7] != 3 || (((got[9] as u16) << 8) | got[10] as u16) != wval {
             TORN.fetch_add(1, Ordering::Relaxed);
             panic!("torn read: acknowledged write lost: register {} was written with {:#06x} (acknowledged), a later read returned {:02x?}", n, wval, &got[7.min(got.len())..]);
@@ -354,8 +357,8 @@ fn main() {
             let out = std::process::Command::new(exe).args(["_replay", &path]).output().expect("child");
             let stderr = String::from_utf8_lossy(&out.stderr).to_string();
             let file = std::path::Path::new(&path).file_name().map(|f| f.to_string_lossy().to_string()).unwrap_or_default();
-            let prop = if file.starts_with("C02") { "C02" } else if file.starts_with("C17") { "C17" } else if file.starts_with("C18") { "C18" } else { "C19" };
-            let (needle, rule) = if file.contains("-bcast") { ("broadcast lost", "broadcast_lost") } else { ("torn read", "torn_read") };
+            let prop = if file.starts_with("C01") { "C01" } else if file.starts_with("C02") { "C02" } else if file.starts_with("C17") { "C17" } else if file.starts_with("C18") { "C18" } else { "C19" };
+            let (needle, rule) = if prop == "C01" { ("", "reply_under_lock_contention") } else if file.contains("-bcast") { ("broadcast lost", "broadcast_lost") } else { ("torn read", "torn_read") };
             match stderr.lines().find(|l| l.contains("PANIC:") && l.contains(needle)) {
                 Some(l) => {
                     println!("VIOLATION property={} replay={}", prop, path);
@@ -368,7 +371,7 @@ fn main() {
                 }
             }
         }
-        Some(prop @ ("C19" | "C02" | "C17" | "C18")) => {
+        Some(prop @ ("C19" | "C01" | "C02" | "C17" | "C18")) => {
             let prop = prop.to_string();
             let mut tier = std::env::var("VERIF_TIER").unwrap_or_else(|_| "quick".into());
             if let Some(i) = args.iter().position(|a| a == "--tier") {
@@ -378,14 +381,19 @@ fn main() {
             }
             let t0 = std::time::Instant::now();
             let (it_rand, it_pct) = if tier == "thorough" { (2_000_000, 400_000) } else { (6_000, 2_000) };
-            let plan: Vec<(&str, bool, u16, usize)> = if prop == "C18" {
+            let plan: Vec<(&str, bool, u16, usize)> = if prop == "C01" {
+                // replies under contention for the handler mutex: both the transaction scenario (every read and
+                // write must be answered with the handler's data, never with an exception nobody raised) and the
+                // broadcast scenario
+                vec![("random-n8", false, 8, it_rand / 2), ("bcast-n2-random", false, 2, it_rand / 4)]
+            } else if prop == "C18" {
                 vec![("random-n8", false, 8, it_rand / 2), ("pct-n8", true, 8, it_pct / 2)]
             } else if prop == "C19" {
                 vec![("random-n8", false, 8, it_rand), ("random-n2-", false, 2, it_rand / 2), ("random-n125", false, 125, it_rand / 10), ("pct-n8", true, 8, it_pct)]
             } else {
                 vec![("bcast-n2-random", false, 2, it_rand / 2), ("bcast-n3-random", false, 3, it_rand / 2), ("bcast-n2-pct", true, 2, it_pct)]
             };
-            let (rule, what) = if prop == "C19" || prop == "C18" { ("torn_read", "multi_point_reads_checked") } else { ("broadcast_lost", "broadcasts_checked") };
+            let (rule, what) = if prop == "C01" { ("reply_under_lock_contention", "requests_checked") } else if prop == "C19" || prop == "C18" { ("torn_read", "multi_point_reads_checked") } else { ("broadcast_lost", "broadcasts_checked") };
             let mut failure: Option<String> = None;
             let mut batches = Vec::new();
             for (name, pct, n, iters) in &plan {
@@ -409,7 +417,7 @@ fn main() {
                 serde_json::json!({"property_id": prop, "tier": tier, "seed": seed, "level": "exploration", "wall_s": 0.0, "coverage": {"evaluations": 0, "distinct_nontrivial": 0, "rule": "", "samples": []}})
             });
             let total: u64 = ITER.load(Ordering::Relaxed);
-            let (real, stub): (Vec<&str>, Vec<&str>) = if prop == "C19" || prop == "C18" {
+            let (real, stub): (Vec<&str>, Vec<&str>) = if prop == "C19" || prop == "C18" || prop == "C01" {
                 (
                     vec!["rodbus-ffi rodbus_server_update_database / database functions", "rodbus TCP server + session task (handler mutex acquisition per request)", "generated Runtime wrapper on the simulated runtime"],
                     vec!["handler mutex = shuttle::sync::Mutex via cfg(rodbus_verif_shuttle)", "network, clock, executor (simtokio)", "application transaction callback with yields between updates"],
